@@ -275,4 +275,243 @@ theorem lifeFDConn_safe (A) (fd fuel : Nat) : wp A (lifeFDConn fd fuel) (fun _ o
   simp only [bind_def, wp_bind, adopt_, wp]
   intro h2 _; simpa using connInit_wp A fuel fd 0 h2
 
+/-! ### listener -/
+
+theorem OsFile.close_wp (A) (f : OsFile) (s : Site) (o : Own) (Q : OsFile → Own → Prop)
+    (h0 : f.closed = false → o f.fd = some f.tag ∧ Q { f with closed := true } (o.set f.fd none))
+    (h1 : f.closed = true → Q f o) : wp A (f.close s) Q o := by
+  unfold OsFile.close
+  cases hc : f.closed
+  · obtain ⟨ho, hq⟩ := h0 hc
+    simp [wp, M.close, M.bind, ho]; exact hq
+  · simpa [wp] using h1 hc
+
+/-- what a listener (duplicate `f`, wrapped listener `w`) owns -/
+def lnOwn (f w : OsFile) : Own := fun x =>
+  if x = f.fd ∧ f.closed = false then some f.tag
+  else if x = w.fd ∧ w.closed = false then some w.tag else none
+
+theorem lnOwn_closed (f w : OsFile) (hf : f.closed = true) (hw : w.closed = true) : lnOwn f w = Own.empty := by
+  funext x; simp [lnOwn, hf, hw]
+
+theorem Listener.close_wp (A) (fd : Fd) (f w : OsFile) (hne : f.fd ≠ w.fd) (Q : Listener → Own → Prop)
+    (h : Q { fd := fd, file := some { f with closed := true }, ln := some { w with closed := true } } Own.empty) :
+    wp A (Listener.close { fd := fd, file := some f, ln := some w }) Q (lnOwn f w) := by
+  unfold Listener.close
+  simp only [bind_def, wp_bind]
+  have second : wp A (w.close Site.listener_Close_ln)
+      (fun w' o' => Q { fd := fd, file := some { f with closed := true }, ln := some w' } o')
+      (lnOwn { f with closed := true } w) := by
+    apply OsFile.close_wp
+    · intro hw
+      refine ⟨by simp [lnOwn, hw], ?_⟩
+      have : (lnOwn { f with closed := true } w).set w.fd none = Own.empty := by
+        funext x; by_cases hx : x = w.fd <;> simp [Own.set, lnOwn, hx, hw]
+      rw [this]; exact h
+    · intro hw
+      rw [lnOwn_closed _ w rfl hw]
+      have e2 : w = { w with closed := true } := by cases w; simp_all
+      rw [e2]; exact h
+  apply OsFile.close_wp
+  · intro hf
+    refine ⟨by simp [lnOwn, hf], ?_⟩
+    have : (lnOwn f w).set f.fd none = lnOwn { f with closed := true } w := by
+      funext x; by_cases hx : x = f.fd
+      · simp [Own.set, lnOwn, hx, hne]
+      · simp [Own.set, lnOwn, hx]
+    rw [this]
+    simpa [wp, wp_bind] using second
+  · intro hf
+    have e : f = { f with closed := true } := by cases f; simp_all
+    rw [e]
+    simpa [wp, wp_bind] using second
+
+structure LnInv (l : Listener) (o : Own) (ran : Bool) : Prop where
+  shape : ∃ f w, l.file = some f ∧ l.ln = some w ∧ f.fd ≠ w.fd ∧ o = lnOwn f w ∧
+    (ran = true → f.closed = true ∧ w.closed = true)
+
+theorem lnEnd_wp (A) (l : Listener) (o : Own) (ran : Bool) (inv : LnInv l o ran) :
+    wp A (lnEnd Listener.close ran l) (fun _ o' => o' = Own.empty) o := by
+  obtain ⟨f, w, hf, hw, hne, ho, hr⟩ := inv.shape
+  unfold lnEnd
+  cases ran
+  · simp only [Bool.false_eq_true, if_false, bind_def, wp_bind]
+    have : l = { fd := l.fd, file := some f, ln := some w } := by cases l; simp_all
+    rw [this, ho]
+    apply Listener.close_wp A _ f w hne
+    simp [wp]
+  · simp only [if_true, pure_def, wp]
+    rw [ho]; exact lnOwn_closed f w (hr rfl).1 (hr rfl).2
+
+theorem lnCloseLoop_wp (A) (fuel : Nat) : ∀ (l : Listener) (o : Own) (ran : Bool), LnInv l o ran →
+    wp A (lnCloseLoop Listener.close fuel ran l) (fun _ o' => o' = Own.empty) o := by
+  induction fuel with
+  | zero => intro l o ran inv; simpa [lnCloseLoop] using lnEnd_wp A l o ran inv
+  | succ n ih =>
+    intro l o ran inv
+    simp only [lnCloseLoop, bind_def, wp_bind]
+    apply wp_ask; intro b _; cases b
+    · simpa using lnEnd_wp A l o ran inv
+    · simp only [Bool.not_true, Bool.false_eq_true, if_false, wp_bind]
+      obtain ⟨f, w, hf, hw, hne, ho, hr⟩ := inv.shape
+      have hl : l = { fd := l.fd, file := some f, ln := some w } := by cases l; simp_all
+      have cl : wp A (Listener.close l)
+          (fun l' o' => wp A (lnCloseLoop Listener.close n true l') (fun _ o' => o' = Own.empty) o') o := by
+        rw [hl, ho]
+        apply Listener.close_wp A _ f w hne
+        apply ih
+        exact ⟨⟨_, _, rfl, rfl, hne, (lnOwn_closed _ _ rfl rfl).symm, fun _ => ⟨rfl, rfl⟩⟩⟩
+      apply wp_ask; intro b _; cases b
+      · simpa [wp, wp_bind] using cl
+      · simpa [wp, wp_bind, visit, M.bind] using cl
+
+/-- `P` is the claim made about what is owned at the end.  On the branches where the code leaves a descriptor to
+the garbage collector (`File()` or `SetNonblock` failing) either the assumptions exclude the branch or `P` must
+hold of anything (safety-only use). -/
+def LnLeak (A : Br → Option Bool) (P : Own → Prop) : Prop :=
+  (A .ln_file_ok = some true ∧ A .ln_setNonblock_ok = some true) ∨ ∀ o, P o
+
+theorem lifeCreateListener_wp (A) (fuel : Nat) (P : Own → Prop) (hP : P Own.empty) (hl : LnLeak A P) :
+    wp A (lifeCreateListener fuel) (fun _ o => P o) Own.empty := by
+  unfold lifeCreateListener lifeCreateListenerWith
+  simp only [bind_def, wp_bind]
+  apply wp_ask; intro b _; cases b
+  case true => simpa [wp] using hP
+  case false =>
+    simp only [Bool.false_eq_true, if_false, wp_bind]
+    apply wp_ask; intro b _; cases b
+    · simpa [wp] using hP
+    · simp only [Bool.not_true, Bool.false_eq_true, if_false, wp_bind, open_, wp]
+      intro lfd h2 _
+      unfold convertTail
+      simp only [bind_def, wp_bind]
+      apply wp_ask; intro b hb; cases b
+      · rcases hl with ⟨h1, _⟩ | h
+        · rw [h1] at hb; simp at hb
+        · simpa [wp] using h _
+      · simp only [Bool.not_true, Bool.false_eq_true, if_false, wp_bind, open_, wp]
+        intro d hd2 hd
+        have hne : d ≠ lfd := by intro e; subst e; simp at hd
+        apply wp_ask; intro b hb; cases b
+        · rcases hl with ⟨_, h1⟩ | h
+          · rw [h1] at hb; simp at hb
+          · simpa [wp] using h _
+        · simp only [pure_def, wp, Bool.not_true, Bool.false_eq_true, if_false]
+          apply wp_mono A _ (fun _ o' => o' = Own.empty) _ _ (fun _ o' h => h ▸ hP)
+          apply lnCloseLoop_wp
+          refine ⟨⟨{ fd := d, tag := 1 }, { fd := lfd, tag := 0 }, rfl, rfl, hne, ?_, fun h => by simp at h⟩⟩
+          funext x
+          by_cases hx : x = d
+          · simp [Own.set, lnOwn, hx]
+          · by_cases hx' : x = lfd <;> simp [Own.set, lnOwn, hx, hx']
+
+theorem lifeConvertListener_wp (A) (lfd fuel : Nat) (P : Own → Prop) (hP : P Own.empty) (hl : LnLeak A P) :
+    wp A (lifeConvertListener lfd fuel) (fun _ o => P o) Own.empty := by
+  unfold lifeConvertListener
+  simp only [bind_def, wp_bind]
+  apply wp_ask; intro b _; cases b
+  · simp only [Bool.false_eq_true, if_false, wp_bind]
+    apply wp_ask; intro b _; cases b
+    · simpa [wp] using hP
+    · simp only [Bool.not_true, Bool.false_eq_true, if_false, wp_bind]
+      unfold convertTail
+      simp only [bind_def, wp_bind]
+      apply wp_ask; intro b hb; cases b
+      · simpa [wp] using hP        -- File() failed: the caller keeps its listener, nothing was opened
+      · simp only [Bool.not_true, Bool.false_eq_true, if_false, wp_bind, open_, wp]
+        intro d hd2 hd
+        apply wp_ask; intro b hb; cases b
+        · rcases hl with ⟨_, h1⟩ | h
+          · rw [h1] at hb; simp at hb
+          · simpa [wp] using h _
+        · simp only [pure_def, wp, Bool.not_true, Bool.false_eq_true, if_false, adopt_, M.bind]
+          intro l2 hl0
+          have hne : d ≠ lfd := by intro e; subst e; simp at hl0
+          apply wp_mono A _ (fun _ o' => o' = Own.empty) _ _ (fun _ o' h => h ▸ hP)
+          apply lnCloseLoop_wp
+          refine ⟨⟨{ fd := d, tag := 1 }, { fd := lfd, tag := 0 }, rfl, rfl, hne, ?_, fun h => by simp at h⟩⟩
+          funext x
+          by_cases hx : x = d
+          · simp [Own.set, lnOwn, hx, hne]
+          · by_cases hx' : x = lfd <;> simp [Own.set, lnOwn, hx, hx', Ne.symm hne]
+  · simpa [wp] using hP
+
+/-! ### poller -/
+
+def PollLeak (A : Br → Option Bool) (P : Own → Prop) : Prop := A .epollWait_ok = some true ∨ ∀ o, P o
+
+def pollOwn (p : Poll) : Own := (Own.empty.set p.fd (some 0)).set p.wfd (some 1)
+
+theorem pollExit_wp (A) (p : Poll) (hne : p.fd ≠ p.wfd) (P : Own → Prop) (hP : P Own.empty) (hl : PollLeak A P) :
+    wp A (pollExit p) (fun _ o => P o) (pollOwn p) := by
+  unfold pollExit
+  simp only [bind_def, wp_bind]
+  apply wp_ask; intro b hb; cases b
+  · rcases hl with h1 | h
+    · rw [h1] at hb; simp at hb
+    · simpa [wp] using h _
+  · have e : ((pollOwn p).set p.wfd none).set p.fd none = Own.empty := by
+      funext x; by_cases hx : x = p.fd <;> by_cases hx' : x = p.wfd <;> simp [Own.set, pollOwn, hx, hx']
+    have h1 : pollOwn p p.wfd = some 1 := by simp [pollOwn]
+    have h2 : ((pollOwn p).set p.wfd none) p.fd = some 0 := by simp [pollOwn, Own.set, hne]
+    simp [wp, M.close, M.bind, h1, h2, e]; exact hP
+
+theorem pollLoop_wp (A) (p : Poll) (hne : p.fd ≠ p.wfd) (P : Own → Prop) (hP : P Own.empty) (hl : PollLeak A P)
+    (fuel : Nat) : wp A (pollLoop p fuel) (fun _ o => P o) (pollOwn p) := by
+  induction fuel with
+  | zero => simpa [pollLoop] using pollExit_wp A p hne P hP hl
+  | succ n ih =>
+    simp only [pollLoop, bind_def, wp_bind]
+    apply wp_ask; intro b hb; cases b
+    · rcases hl with h1 | h
+      · rw [h1] at hb; simp at hb
+      · simpa [wp] using h _
+    · simp only [Bool.not_true, Bool.false_eq_true, if_false, wp_bind]
+      apply wp_ask; intro b _; cases b
+      · simpa using pollExit_wp A p hne P hP hl
+      · simpa using ih
+
+theorem lifePoller_wp (A) (fuel : Nat) (P : Own → Prop) (hP : P Own.empty) (hl : PollLeak A P) :
+    wp A (lifePoller fuel) (fun _ o => P o) Own.empty := by
+  unfold lifePoller openDefaultPoll
+  simp only [bind_def, wp_bind]
+  apply wp_ask; intro b _; cases b
+  · simpa [wp] using hP
+  · simp only [Bool.not_true, Bool.false_eq_true, if_false, wp_bind, open_, wp]
+    intro p hp2 _
+    apply wp_ask; intro b _; cases b
+    · simp [wp, M.close, M.bind, Own.set_cancel Own.empty p (some 0) rfl]; exact hP
+    · simp only [Bool.not_true, Bool.false_eq_true, if_false, wp_bind, open_, wp]
+      intro w hw2 hw
+      have hne : p ≠ w := by intro e; subst e; simp at hw
+      apply wp_ask; intro b _; cases b
+      · have e : ((Own.empty.set p (some 0)).set w (some 1)).set w none = Own.empty.set p (some 0) := by
+          funext x; by_cases hx : x = w <;> simp [Own.set, hx, Ne.symm hne]
+        simp [wp, M.close, M.bind, e, Own.set_cancel Own.empty p (some 0) rfl]; exact hP
+      · simpa [wp, pollOwn] using pollLoop_wp A { fd := p, wfd := w } hne P hP hl fuel
+
+/-! ### every lifecycle of the family -/
+
+/-- No close / hand-over of a number that is not owned, on any path, without any assumption. -/
+theorem kind_safe (A) (k : Kind) : wp A k.prog (fun _ _ => True) Own.empty := by
+  cases k with
+  | dialTCP f => exact wp_mono A _ _ _ _ (fun _ _ _ => trivial) (lifeDialTCP_safe A f)
+  | dialUnix f => exact wp_mono A _ _ _ _ (fun _ _ _ => trivial) (lifeDialUnix_safe A f)
+  | accepted f => exact wp_mono A _ _ _ _ (fun _ _ _ => trivial) (lifeAccepted_safe A f)
+  | fdConn fd f => exact wp_mono A _ _ _ _ (fun _ _ _ => trivial) (lifeFDConn_safe A fd f)
+  | createListener f => exact lifeCreateListener_wp A f (fun _ => True) trivial (Or.inr fun _ => trivial)
+  | convertListener l f => exact lifeConvertListener_wp A l f (fun _ => True) trivial (Or.inr fun _ => trivial)
+  | poller f => exact lifePoller_wp A f (fun _ => True) trivial (Or.inr fun _ => trivial)
+
+/-- … and under `noLeakAssumptions` every path ends owning nothing. -/
+theorem kind_complete (k : Kind) : wp noLeakAssumptions k.prog (fun _ o => o = Own.empty) Own.empty := by
+  cases k with
+  | dialTCP f => exact lifeDialTCP_safe _ f
+  | dialUnix f => exact lifeDialUnix_safe _ f
+  | accepted f => exact lifeAccepted_safe _ f
+  | fdConn fd f => exact lifeFDConn_safe _ fd f
+  | createListener f => exact lifeCreateListener_wp _ f (fun o => o = Own.empty) rfl (Or.inl ⟨rfl, rfl⟩)
+  | convertListener l f => exact lifeConvertListener_wp _ l f (fun o => o = Own.empty) rfl (Or.inl ⟨rfl, rfl⟩)
+  | poller f => exact lifePoller_wp _ f (fun o => o = Own.empty) rfl (Or.inl rfl)
+
 end Netpoll.Fd
